@@ -92,6 +92,10 @@ def judge(ctx, sc, im):
                     ili[(s, y['id'])] = y['ili'] if y['ili'] not in ('', 'in') else None
         got_syn = {(y['lexicon'], y['id']): y for y in b['scope']['synsets']}
         got_x = {tuple(x['ref'][:2]): x for x in b['scope']['synsets_x']}
+        for x in b['scope']['synsets_x']:
+            if x['tax_paths'] != x['hypernym_paths']:
+                ctx.fail('hypernym_paths()=maximal-chains-over-the-(expanded)-hypernym-relations-of-this-wordnet', sc,
+                         {'args': args, 'synset': x['ref'], 'hypernym_paths()': x['tax_paths'], 'relation_paths(hypernym, instance_hypernym)': x['hypernym_paths']})
         borrowed_any = False
         for key, y in own_syn.items():
             if key not in got_syn:
